@@ -693,6 +693,10 @@ pub enum FamTy {
     /// members of a second same-path family with two shapes
     Z,
     Z2,
+    /// tuples one of which is a prefix of the other: (), (u8, u16), (u8, u16, u32)
+    Tup0,
+    Tup2,
+    Tup3,
 }
 
 pub const FAM_ALPHABET: [FamTy; 20] = [
@@ -743,6 +747,9 @@ impl FamTy {
             FamTy::WOptU16 => Ty::Named(F_W, vec![Ty::Option(b(U16))]),
             FamTy::Z => Ty::Named(F_Z, vec![]),
             FamTy::Z2 => Ty::Named(F_Z2, vec![]),
+            FamTy::Tup0 => Ty::Tuple(vec![]),
+            FamTy::Tup2 => Ty::Tuple(vec![U8, U16]),
+            FamTy::Tup3 => Ty::Tuple(vec![U8, U16, U32]),
         }
     }
 }
